@@ -92,3 +92,11 @@ Ltac break_if :=
   | |- context [if Z.eqb ?x ?y then _ else _] => no_if x; no_if y; destruct (Z.eqb_spec x y); cbv iota
   end.
 Ltac break_ifs := repeat (break_if; try lia).
+(* case-split every integer comparison occurring in the goal *)
+Ltac break_cmp :=
+  match goal with
+  | |- context [Z.ltb ?x ?y] => no_if x; no_if y; destruct (Z.ltb_spec x y)
+  | |- context [Z.leb ?x ?y] => no_if x; no_if y; destruct (Z.leb_spec x y)
+  | |- context [Z.eqb ?x ?y] => no_if x; no_if y; destruct (Z.eqb_spec x y)
+  end; cbn [andb orb negb]; cbv iota.
+Ltac break_cmps := repeat (break_cmp; try lia).
